@@ -68,7 +68,7 @@ func runC09Streams(rc *RunCtx) {
 	sw := &ScriptedWriter{ErrAt: -1, CancelAtWrite: -1, Ctx: ctx, Cancel: cancel, ShortEvery: short}
 	switch fault {
 	case 1:
-		sr.ErrAt, sr.ErrVal = at, errScripted
+		sr.ErrAt, sr.ErrVal = at, scriptedErr(ch, "readerr")
 		res.Fault("reader-error")
 	case 2:
 		sr.CancelAtRead = at
@@ -77,7 +77,7 @@ func runC09Streams(rc *RunCtx) {
 		cancel()
 		res.Fault("context-done-before")
 	case 4:
-		sw.ErrAt, sw.ErrVal = at, errScripted
+		sw.ErrAt, sw.ErrVal = at, scriptedErr(ch, "writeerr")
 		res.Fault("writer-error")
 	case 5:
 		sw.CancelAtWrite = at
@@ -210,6 +210,20 @@ func runC09Streams(rc *RunCtx) {
 		seam := NewSeam(disk.View(1), 1)
 		vfs := filesystem.NewVirtualFileSystem(seam, filesystem.Custom, filesystem.IdentityPathConverterFunc)
 		_ = disk.View(1).MkdirAll("/d", 0o755)
+		if huge := ch.Pick("hugefile", 5, 1); huge == 1 && fault == 0 {
+			// a file of a gigabyte or more (sparse on the simulated disk) against a small limit
+			size := []int64{1e9 - 1, 1e9, 1e9 + 1, 1 << 31, 1 << 40}[ch.Intn("hugesize", 5)]
+			lim := int64(1 + ch.Intn("hugelimit", 1<<20))
+			_ = disk.MakeSparse("/d/huge.bin", size)
+			got, err := vfs.ReadFileWithContextAndLimits(ctx, "/d/huge.bin", filesystem.NewLimits(lim, 1<<50, 1<<20, 64, false))
+			if !commonerrors.Any(err, commonerrors.ErrTooLarge) {
+				viol("too-large-not-refused", fmt.Sprintf("file of %d bytes, limit %d: err=%v, %d bytes returned", size, lim, err, len(got)))
+			}
+			if seam.Balance() != 0 {
+				viol("handle-leak", fmt.Sprintf("%d handles left open: %v", seam.Balance(), seam.OpenPaths()))
+			}
+			break
+		}
 		f, _ := disk.View(1).Create("/d/file.bin")
 		_, _ = f.Write(data)
 		_ = f.Close()
